@@ -27,6 +27,7 @@ CHECK = dict(
 
 N_STATES = 8
 MAX_BLOCKS = 14
+CASE_CPU_SECONDS = 60      # CPU time (ITIMER_PROF), not wall-clock
 
 
 def shards(tier, seed, scale):
@@ -401,14 +402,22 @@ def run_shard(params, rec):
     common.quiet()
     from vf import irgen
     rng = common.rng_for(params)
+    from vf.models import cpulimit
+    cpulimit.install()
     ctxs = [irgen.Ctx("x86_32"), irgen.Ctx("x86_64")]
     for i in range(params["n"]):
-        one_case(rec, rng, ctxs, i)
+        try:
+            with cpulimit.cpu_limit(CASE_CPU_SECONDS):
+                one_case(rec, rng, ctxs, i)
+        except cpulimit.CpuTimeout:
+            rec.count("case_cpu_timeout")       # never a verdict; see floors
 
 
 def floors(tier, counters, evaluations):
     miss = []
     g = max(1, counters.get("graphs", 0))
+    if counters.get("case_cpu_timeout", 0) > 0.01 * g:
+        miss.append("more than 1%% of the cases ran out of CPU time (%d)" % counters.get("case_cpu_timeout", 0))
     if counters.get("graphs_irreducible", 0) < 0.2 * g:
         miss.append("fewer than 20%% of the graphs are irreducible (%d of %d)" % (counters.get("graphs_irreducible", 0), g))
     if counters.get("graphs_swap_or_lost_copy", 0) < 0.1 * g:
